@@ -561,6 +561,9 @@ class MessageManager(ClientLike):
 
         for n in range(len(subscribers)):
             module = subscribers[n]
+            # a failure while delivering to an earlier subscriber may already have removed this one
+            if module.conn not in self.modules:
+                continue
             if module.conn in self.wlist:
                 try:
                     if (
@@ -613,6 +616,9 @@ class MessageManager(ClientLike):
         """
         # iterate over a copy: a failed write removes the module from the set
         for module in list(self.logger_modules):
+            # a failure while sending to an earlier logger may already have removed this one
+            if module.conn not in self.modules:
+                continue
             if module.conn not in self.wlist:
                 # Block until logger is ready
                 select.select([], [module.conn], [], None)
